@@ -58,6 +58,13 @@ theorem written_times_close (cwd : Str) (rnd : α → Int) (st : Stages α) (r :
     ∀ w ∈ writes (exportTrace cwd rnd st r sel), Close t₁ w.2.1 :=
   written_times_close' cwd rnd st r sel n₁ t₁ x₁ h1
 
+/-- Series without samples (a window between two time steps, …) are never written — no format can hold them so that they
+load again: every record handed to a writer has at least one time step; such an export raises before the target is opened
+(`raise_before_open`). -/
+theorem written_has_samples (cwd : Str) (rnd : α → Int) (st : Stages α) (r : Req α) (sel : List (Entry α)) :
+    ∀ w ∈ writes (exportTrace cwd rnd st r sel), w.2.1 ≠ [] :=
+  written_has_samples' cwd rnd st r sel
+
 /-- Forced common time: if something is written although the arrays are not common and no resampling was requested, then
 `force_common_time` was set, every written time array **is** the constructed common time array, and that array lies inside
 the span of every selected series (resampling never extrapolates). -/
@@ -189,6 +196,15 @@ example : exportTrace (α := Rat) [] (fun q : Rat => q.floor) ⟨id, fun _ x => 
     [⟨"a".toList, none, [0, 1, 2, 3, 4], [1, 2, 3, 4, 5]⟩, ⟨"b".toList, none, [0, 2, 4], [5, 6, 7]⟩] =
     [.mkdirs, .select, .friendly, .timeCheck, .commonTime, .process, .process, .openTarget .dat,
       .write "a".toList [0, 1, 2, 3, 4] [1, 2, 3, 4, 5], .write "b".toList [0, 1, 2, 3, 4] [5, 11/2, 6, 13/2, 7]] := by
+  decide +kernel
+
+/-- A window between two time steps leaves no sample: the export raises before the target is opened (the replay of the
+empty-window defect repaired in /repo). -/
+example : exportTrace (α := Rat) [] (fun q : Rat => q.floor) ⟨id, fun _ x => x, id⟩
+    { targetExists := false, existOk := true, dirMissing := false, basename := true, force := false, ext := .pkl,
+      opts := { twin := some (1/4, 3/4) } }
+    [⟨"a".toList, none, [0, 1, 2, 3], [1, 2, 3, 4]⟩, ⟨"b".toList, none, [0, 1, 2, 3], [5, 13/2, 29/4, 8]⟩] =
+    [.select, .friendly, .timeCheck, .process, .process, .raise .value] := by
   decide +kernel
 
 /-- Non-vacuity of the partial theorem's premises: two series on the lattice `0 + ℕ·1` and a window inside both. -/
